@@ -222,6 +222,10 @@ def body_a(shape, v, K):
         return {K: [v]}
     if shape == 4:
         return {K: {'b': v}}
+    if shape == 6:
+        return {K: None}                 # a field present with an explicit JSON null (as apiservers serialise zero values)
+    if shape == 7:
+        return {K: {'b': None, 'c': 7}}
     return {K: {'b': v, 'c': 7}}
 
 
@@ -291,7 +295,7 @@ def run_review(bshape, bv, pshape, pv, fin, lbl, fail, K):
 
 def h_patch(bshape: int, bv: int, pshape: int, pv: int, fin: bool, lbl: bool, fail: bool) -> bool:
     """
-    pre: 0 <= bshape <= 5 and 0 <= pshape <= 8
+    pre: 0 <= bshape <= 7 and 0 <= pshape <= 8
     post: _ == True
     """
     vkopf.begin_path()
@@ -394,9 +398,11 @@ def obligations():
     obs += split(Ob('h_select', {}, timeout=900, tiers=('thorough',)), op=[0, 1, 2, 3], hops=[0, 1, 2, 3])
     for (bshape, pshape) in ((1, 5), (3, 6), (2, 8), (4, 6), (5, 7), (4, 1), (0, 5), (5, 4)):
         obs.append(Ob('h_patch', {'key': 'a', 'pin': {'bshape': bshape, 'pshape': pshape}}, tiers=('quick',), timeout=600))
+    for (bshape, pshape) in ((6, 1), (7, 6), (6, 5)):       # explicit nulls in the reviewed object
+        obs.append(Ob('h_patch', {'key': 'a', 'pin': {'bshape': bshape, 'pshape': pshape}}, tiers=('quick', 'thorough'), timeout=600))
     obs.append(Ob('h_patch', {'key': 'a'}, tiers=('quick', 'thorough'), timeout=300, twins=['mutated', 'mapping_over_scalar'], main=False))
     for key in ('a', 'x/y~z'):
-        obs += sample(Ob('h_patch', {'key': key}, timeout=900, tiers=('thorough',)), 30, seed=180 + len(key), bshape=[0, 1, 2, 3, 4, 5], pshape=[0, 1, 2, 3, 4, 5, 6, 7, 8])
+        obs += sample(Ob('h_patch', {'key': key}, timeout=900, tiers=('thorough',)), 30, seed=180 + len(key), bshape=[0, 1, 2, 3, 4, 5, 6, 7], pshape=[0, 1, 2, 3, 4, 5, 6, 7, 8])
     obs += split(Ob('h_serve', {}, timeout=600, twins=['denied']), same_id=[False, True])
     obs.append(Ob('h_serve', {'exclude_known': False, 'only_f13': True, 'pin': {'same_id': True}}, expect='counterexample', finding='F13', timeout=300))
     return obs
